@@ -147,13 +147,17 @@ RULE = ('23 conversations (acceptor- and requestor-side: echo, 3-fragment store,
         'P-DATA x2 + A-ABORT, release by peer, release collision, reject, unknown PDU, RJ, AC+A-ABORT, multi-PDU response burst) x every '
         'burst x {every single cut offset, every pair of cut offsets (quick: on a stride), all k=3 cut sets on PDU-header boundaries '
         '+-1, one-byte dribble, everything-at-once, peer close already visible with the last segment} x recv() size limit {none, 1, 6, 7} x first segment already waiting at start-up '
-        '{no, yes} x <=1 deviation (next segment delivered at a non-quiescent loop head); the per-round observation log (indications '
+        '{no, yes} x a previous association of the same process having died mid-PDU x <=1 deviation (next segment delivered at a non-quiescent loop head); the per-round observation log (indications '
         'with contents, PDUs sent, close calls, final state, leftover buffer) must equal that of the canonical delivery (one PDU per '
         'segment). distinct/non-trivial = distinct (conversation, burst, cut set, recv limit, pre-queue, deviation)')
 
 
 def cases(tier, seed):
     thorough = tier == 'thorough'
+    # a previous association of the same process died in the middle of a PDU: the next one must be unaffected
+    for name in conv():
+        for k in ((1, 5, 6, 7, 30) if not thorough else range(1, 60)):
+            yield {'conv': name, 'burst': 0, 'cuts': [], 'recv': None, 'pre': 0, 'after_dead': k}
     for name in conv():
         role, rounds = conv()[name]
         for bi, (burst, _) in enumerate(rounds):
@@ -219,6 +223,14 @@ def run_case(case):
         return {'viol': [('c03:canonical-run-fails:%s' % name, 'canonical delivery of %s ends with %r' % (name, ref['final']))],
                 'case': case, 'key': None}
     dribble = case['cuts'] == 'dribble'
+    if case.get('after_dead'):
+        drole = conv()[name][0]
+        k = case['after_dead']
+        if drole == 'ac':
+            dead = [('bytes', small_rq()[:k]), ('close',)]
+        else:
+            dead = [('user', ('assoc_rq',)), ('bytes', small_ac()[:k]), ('close',)]
+        e2.Env(drole, dead, budget=3000).run()
     role, hist, owner = build_history(name, case['burst'], () if dribble else case['cuts'], dribble, case.get('glue', False))
     dev = {d: True for d in case.get('dev', [])} or None
     got = observe(role, hist, owner, nr, case['recv'], case['pre'], dev)
@@ -235,10 +247,10 @@ def run_case(case):
                 break
         if not diff:
             diff = 'final %r versus canonical %r' % (got['final'], ref['final'])
-        kind = 'pre' if case['pre'] else ('dev' if dev else ('close-with-data' if case.get('glue') else ('recv' if case['recv'] else 'cut')))
+        kind = 'after-dead-association' if case.get('after_dead') else 'pre' if case['pre'] else ('dev' if dev else ('close-with-data' if case.get('glue') else ('recv' if case['recv'] else 'cut')))
         viol.append(('c03:%s:%s' % (name, kind), 'delivery %s differs from one-PDU-per-segment delivery: %s' % (
             {k: case[k] for k in ('burst', 'cuts', 'recv', 'pre', 'dev') if k in case}, diff)))
-    key = (name, case['burst'], tuple(case['cuts']) if not dribble else 'dribble', case['recv'], case['pre'], tuple(case.get('dev', [])), case.get('glue', False))
+    key = (name, case['burst'], tuple(case['cuts']) if not dribble else 'dribble', case['recv'], case['pre'], tuple(case.get('dev', [])), case.get('glue', False), case.get('after_dead'))
     return {'viol': viol, 'case': case if viol else None, 'key': key,
             'sample': case if case['cuts'] == [6, 7] else None}
 
